@@ -685,7 +685,7 @@ class SCategoriesToIntegers(Spec):
     name = "CategoriesToIntegers"
     kind = "frame"
     methods = (("transform", EXACT),)
-    rowwise = ()
+    rowwise = ("transform",)
     weights = False
 
     def draw(self, ch):
